@@ -147,10 +147,19 @@ def make_group(F, spec):
         return F.new_permutations(spec['n'], spec['k'], **kw)
     if kind == 'words':
         return F.new_words(spec['n'], spec['k'], **kw)
+    def reused(G, maker):
+        # "for all sequences ... of group creation": the SAME graph object may already have served another group,
+        # in another formula, at another offset; nothing of that may leak into the new group
+        if spec.get('reuse') is not None:
+            F0 = type(F)()
+            F0.update_variable_number(spec['reuse'])
+            maker(F0)(G)
+        return G
     if kind in ('bipartite', 'sparse_mapping'):
         B = BipartiteGraph(spec['L'], spec['R'])
         for u, v in spec['edges']:
             B.add_edge(u, v)
+        reused(B, lambda X: (X.new_bipartite_edges if kind == 'bipartite' else X.new_sparse_mapping))
         return (F.new_bipartite_edges if kind == 'bipartite' else F.new_sparse_mapping)(B, **kw)
     if kind == 'mapping':
         return F.new_mapping(spec['L'], spec['R'], **kw)
@@ -158,11 +167,13 @@ def make_group(F, spec):
         G = Graph(spec['n'])
         for u, v in spec['edges']:
             G.add_edge(u, v)
+        reused(G, lambda X: X.new_graph_edges)
         return F.new_graph_edges(G, **kw)
     if kind == 'digraph':
         D = DirectedGraph(spec['n'])
         for u, v in spec['edges']:
             D.add_edge(u, v)
+        reused(D, lambda X: (lambda g: X.new_digraph_edges(g, sortby=spec.get('sortby', 'pred'))))
         return F.new_digraph_edges(D, sortby=spec.get('sortby', 'pred'), **kw)
     if kind == 'binary_mapping':
         return F.new_binary_mapping(spec['n'], spec['m'], **kw)
@@ -387,7 +398,11 @@ def _graph_specs(thorough):
                 continue
             for sortby in ('pred', 'succ'):
                 out.append({'kind': 'digraph', 'n': n, 'edges': edges, 'sortby': sortby})
-    return out
+    extra = []
+    for i, sp in enumerate(out):
+        if sp['edges'] and i % 2 == 0:
+            extra.append(dict(sp, reuse=(0 if i % 4 == 0 else 3)))
+    return out + extra
 
 
 def _plain_specs(thorough):
